@@ -136,6 +136,37 @@ func TestVerifState(t *testing.T) {
 		sdb := NewDatabase(disk)
 		st, _ := New(common.Hash{}, sdb)
 		w.emit(map[string]interface{}{"e": "newstate", "seq": s, "obs": observe(st.Copy())})
+		// the shadow receives the same mutations, interleaved with reads of random accounts (balance, nonce, code, storage,
+		// existence): reads are not part of the content, so its roots must be the same
+		disk2 := aquadb.NewMemDatabase()
+		shadow, _ := New(common.Hash{}, NewDatabase(disk2))
+		snapMap := map[int]int{}
+		peek := func() {
+			for k := rng.Intn(3); k > 0; k-- {
+				b := sAddrs[rng.Intn(len(sAddrs))]
+				switch rng.Intn(7) {
+				case 0:
+					shadow.GetBalance(b)
+				case 1:
+					shadow.GetNonce(b)
+				case 2:
+					shadow.GetCode(b)
+				case 3:
+					shadow.GetCodeSize(b)
+				case 4:
+					shadow.GetState(b, sSlots[rng.Intn(len(sSlots))])
+				case 5:
+					shadow.Exist(b)
+				default:
+					shadow.Empty(b)
+				}
+			}
+		}
+		both := func(f func(x *StateDB)) {
+			f(st)
+			peek()
+			f(shadow)
+		}
 		var live []int // live snapshot ids
 		// one fork rule per sequence, as in block processing (EIP-158 on or off for the whole block)
 		seqDel := s%2 == 0
@@ -159,6 +190,32 @@ func TestVerifState(t *testing.T) {
 				root, _ = st.Commit(del)
 				sdb.TrieDB().Commit(root, false)
 			}
+			var root2 common.Hash
+			if kind == "intermediate" {
+				root2 = shadow.IntermediateRoot(del)
+			} else {
+				root2, _ = shadow.Commit(del)
+				shadow.db.TrieDB().Commit(root2, false)
+			}
+			// two states opened from the committed root through the SAME state database (its trie cache) are independent:
+			// one is modified and hashed, the other must still read the committed content
+			twinObs := map[string]interface{}{}
+			twinRootSame := true
+			if kind == "commit" {
+				ta, ea := New(root, sdb)
+				tb, eb := New(root, sdb)
+				if ea == nil && eb == nil {
+					for k := 0; k < 3; k++ {
+						b := sAddrs[rng.Intn(len(sAddrs))]
+						ta.AddBalance(b, big.NewInt(int64(1+rng.Intn(5))))
+						ta.SetNonce(b, uint64(7+rng.Intn(3)))
+						ta.SetState(b, sSlots[rng.Intn(len(sSlots))], common.BigToHash(big.NewInt(int64(1+rng.Intn(9)))))
+					}
+					ta.IntermediateRoot(del)
+					twinObs = observe(tb)
+					twinRootSame = tb.IntermediateRoot(del) == root
+				}
+			}
 			live = nil
 			dump, kok := dumpNodes(disk)
 			direct := observe(st)
@@ -171,26 +228,30 @@ func TestVerifState(t *testing.T) {
 				reObs = observe(re)
 			}
 			w.emit(map[string]interface{}{"e": "root", "kind": kind, "del": del, "root": sints(root[:]), "dump": dump, "keccakOK": kok,
-				"obs": direct, "copyObs": observe(st.Copy()), "reopenObs": reObs, "reopenErr": reErr})
+				"obs": direct, "copyObs": observe(st.Copy()), "reopenObs": reObs, "reopenErr": reErr,
+				"shadowRoot": sints(root2[:]), "twinObs": twinObs, "twinRootSame": twinRootSame, "twin": kind == "commit" && len(twinObs) > 0})
 			if kind == "commit" && re != nil { // a StateDB is not reused after Commit (block processing opens a new one per block)
 				// ... a fresh instance that nobody has read from yet (cold caches)
 				st, _ = New(root, NewDatabase(disk))
 				sdb = st.db
+				shadow, _ = New(root2, NewDatabase(disk2))
 			}
 		}
 		if s == 1 {
 			// the history of known finding D14, always exercised: an existing empty account, a zero-value touch inside a
 			// snapshot, revert, then a real change
-			st.SetBalance(sAddrs[4], big.NewInt(0))
+			both(func(x *StateDB) { x.SetBalance(sAddrs[4], big.NewInt(0)) })
 			emitOp("setbalance", map[string]interface{}{"a": aid(4)})
 			commitPoint("commit", seqDel)
 			id := st.Snapshot()
+			snapMap[id] = shadow.Snapshot()
 			w.emit(map[string]interface{}{"e": "snapshot", "id": id, "obs": observe(st.Copy())})
-			st.AddBalance(sAddrs[4], big.NewInt(0))
+			both(func(x *StateDB) { x.AddBalance(sAddrs[4], big.NewInt(0)) })
 			emitOp("addbalance", map[string]interface{}{"a": aid(4), "v": 0})
 			st.RevertToSnapshot(id)
+			shadow.RevertToSnapshot(snapMap[id])
 			w.emit(map[string]interface{}{"e": "revert", "id": id, "obs": observe(st.Copy())})
-			st.SetNonce(sAddrs[4], 5)
+			both(func(x *StateDB) { x.SetNonce(sAddrs[4], 5) })
 			emitOp("setnonce", map[string]interface{}{"a": aid(4)})
 			commitPoint("commit", seqDel)
 		}
@@ -200,23 +261,26 @@ func TestVerifState(t *testing.T) {
 			switch r := rng.Intn(22); {
 			case r < 3:
 				v := int64(rng.Intn(4)) // 0 = touch
-				st.AddBalance(a, big.NewInt(v))
+				both(func(x *StateDB) { x.AddBalance(a, big.NewInt(v)) })
 				emitOp("addbalance", map[string]interface{}{"a": aid(ai), "v": int(v)})
 			case r < 4:
 				v := new(big.Int).Set(st.GetBalance(a))
 				if v.Sign() > 0 {
 					v = big.NewInt(int64(rng.Intn(int(v.Int64() + 1))))
 				}
-				st.SubBalance(a, v)
+				both(func(x *StateDB) { x.SubBalance(a, v) })
 				emitOp("subbalance", map[string]interface{}{"a": aid(ai)})
 			case r < 5:
-				st.SetBalance(a, big.NewInt(int64(rng.Intn(3))*1000000007))
+				nb := big.NewInt(int64(rng.Intn(3)) * 1000000007)
+				both(func(x *StateDB) { x.SetBalance(a, nb) })
 				emitOp("setbalance", map[string]interface{}{"a": aid(ai)})
 			case r < 7:
-				st.SetNonce(a, uint64(rng.Intn(3)))
+				nn := uint64(rng.Intn(3))
+				both(func(x *StateDB) { x.SetNonce(a, nn) })
 				emitOp("setnonce", map[string]interface{}{"a": aid(ai)})
 			case r < 9:
-				st.SetCode(a, codes[rng.Intn(len(codes))])
+				cd := codes[rng.Intn(len(codes))]
+				both(func(x *StateDB) { x.SetCode(a, cd) })
 				emitOp("setcode", map[string]interface{}{"a": aid(ai)})
 			case r < 13:
 				var v common.Hash
@@ -229,20 +293,22 @@ func TestVerifState(t *testing.T) {
 				default:
 					v[31], v[0] = 1, 0x80
 				}
-				st.SetState(a, sSlots[rng.Intn(len(sSlots))], v)
+				sl := sSlots[rng.Intn(len(sSlots))]
+				both(func(x *StateDB) { x.SetState(a, sl, v) })
 				emitOp("setstate", map[string]interface{}{"a": aid(ai)})
 			case r < 14:
-				st.Suicide(a)
+				both(func(x *StateDB) { x.Suicide(a) })
 				emitOp("suicide", map[string]interface{}{"a": aid(ai)})
 			case r < 15:
-				st.CreateAccount(a)
+				both(func(x *StateDB) { x.CreateAccount(a) })
 				emitOp("createaccount", map[string]interface{}{"a": aid(ai)})
 			case r < 16:
-				st.AddLog(&types.Log{Address: a})
-				st.AddRefund(uint64(rng.Intn(3)))
+				rf := uint64(rng.Intn(3))
+				both(func(x *StateDB) { x.AddLog(&types.Log{Address: a}); x.AddRefund(rf) })
 				emitOp("addlog", map[string]interface{}{"a": aid(ai)})
 			case r < 18:
 				id := st.Snapshot()
+				snapMap[id] = shadow.Snapshot()
 				live = append(live, id)
 				w.emit(map[string]interface{}{"e": "snapshot", "id": id, "obs": observe(st.Copy())})
 			case r < 20:
@@ -251,6 +317,7 @@ func TestVerifState(t *testing.T) {
 					id := live[k]
 					live = live[:k] // later revisions die
 					st.RevertToSnapshot(id)
+					shadow.RevertToSnapshot(snapMap[id])
 					w.emit(map[string]interface{}{"e": "revert", "id": id, "obs": observe(st.Copy())})
 				}
 			case r < 21:
